@@ -196,7 +196,7 @@ func cmdExport(args []string) int {
 		if fmtStore(orig) != fmtStore(after) {
 			monFail = append(monFail, fmt.Sprintf("history %d: records differ after restart: %s vs %s", h, fmtStore(orig), fmtStore(after)))
 		}
-		_ = inst.Rules.Close(ctx)
+		_ = closeRules(ctx, inst.Rules)
 		// (c) the binary's export, imported into a fresh directory
 		expFile := filepath.Join(base, "export.json")
 		code, out := bin.run(base, "--export-slashing-protection", "--slashing-protection-file", expFile, "--genesis-validators-root", testGVR)
